@@ -19,3 +19,7 @@ open Pcore.Desc
 #print axioms C19_sizeMismatch_real_false
 #print axioms C19_typeMismatch_nested_wrapper
 #print axioms C19_typeMismatch_real_false
+#print axioms C19_signatures_total
+#print axioms C19_signatures_fault_nilSize
+#print axioms C19_signatures_fault_nilParams
+#print axioms C19_signatures_fault_paramIndex
